@@ -5,65 +5,85 @@ import (
 	"go/token"
 	"go/types"
 	"sort"
+	"strings"
 
 	"golang.org/x/tools/go/ssa"
 )
 
-// derefParamSummary: indices of the parameters of fn that are dereferenced (method invoked
-// on an interface parameter, field/element access or load through a pointer parameter,
-// or handed to another gleece function in such a position) at a point that is not
-// dominated by a non-nil test of that parameter.
-func derefParamSummary(fn *ssa.Function, memo map[*ssa.Function]map[int]bool, depth int) map[int]bool {
-	if r, ok := memo[fn]; ok {
-		return r
+// derefSummaries: for every gleece function, the indices of its pointer/interface
+// parameters that are dereferenced (method invoked on an interface parameter, field or
+// element access or load through a pointer parameter, or handed on to another gleece
+// function in such a position) at a point not dominated by a non-nil test of that
+// parameter. Computed once as a fixpoint over the static call graph.
+func (w *World) derefSummaries() map[*ssa.Function]map[int]bool {
+	if w.derefSum != nil {
+		return w.derefSum
 	}
-	out := map[int]bool{}
-	memo[fn] = out // cut recursion
-	if fn == nil || len(fn.Blocks) == 0 || depth > bound(3) {
-		return out
+	sum := map[*ssa.Function]map[int]bool{}
+	type passOn struct {
+		callee *ssa.Function
+		argIdx int
+		param  int
 	}
-	idx := map[ssa.Value]int{}
-	for i, p := range fn.Params {
-		switch p.Type().Underlying().(type) {
-		case *types.Pointer, *types.Interface:
-			idx[p] = i
-		}
-	}
-	if len(idx) == 0 {
-		return out
-	}
-	for _, b := range fn.Blocks {
-		for _, ins := range b.Instrs {
-			mark := func(v ssa.Value) {
-				if i, ok := idx[v]; ok && !knownNonNil(v, b) {
-					out[i] = true
-				}
+	pass := map[*ssa.Function][]passOn{}
+	fns := w.SSAFuncs
+	for _, fn := range fns {
+		out := map[int]bool{}
+		sum[fn] = out
+		idx := map[ssa.Value]int{}
+		for i, p := range fn.Params {
+			switch p.Type().Underlying().(type) {
+			case *types.Pointer, *types.Interface:
+				idx[p] = i
 			}
-			switch x := ins.(type) {
-			case *ssa.UnOp:
-				if x.Op == token.MUL {
+		}
+		if len(idx) == 0 {
+			continue
+		}
+		for _, b := range fn.Blocks {
+			for _, ins := range b.Instrs {
+				mark := func(v ssa.Value) {
+					if i, ok := idx[v]; ok && !knownNonNil(v, b) {
+						out[i] = true
+					}
+				}
+				switch x := ins.(type) {
+				case *ssa.UnOp:
+					if x.Op == token.MUL {
+						mark(x.X)
+					}
+				case *ssa.FieldAddr:
 					mark(x.X)
-				}
-			case *ssa.FieldAddr:
-				mark(x.X)
-			case ssa.CallInstruction:
-				com := x.Common()
-				if com.IsInvoke() {
-					mark(com.Value)
-					continue
-				}
-				if callee := com.StaticCallee(); callee != nil && callee.Pkg != nil && isGleecePkg(callee.Pkg.Pkg.Path()) {
-					sub := derefParamSummary(callee, memo, depth+1)
-					for ai, a := range com.Args {
-						if sub[ai] {
-							mark(a)
+				case ssa.CallInstruction:
+					com := x.Common()
+					if com.IsInvoke() {
+						mark(com.Value)
+						continue
+					}
+					if callee := com.StaticCallee(); callee != nil && callee.Pkg != nil && isGleecePkg(callee.Pkg.Pkg.Path()) {
+						for ai, a := range com.Args {
+							if i, ok := idx[a]; ok && !knownNonNil(a, b) {
+								pass[fn] = append(pass[fn], passOn{callee, ai, i})
+							}
 						}
 					}
 				}
 			}
 		}
 	}
-	return out
+	for changed := true; changed; {
+		changed = false
+		for fn, ps := range pass {
+			for _, p := range ps {
+				if sum[p.callee][p.argIdx] && !sum[fn][p.param] {
+					sum[fn][p.param] = true
+					changed = true
+				}
+			}
+		}
+	}
+	w.derefSum = sum
+	return sum
 }
 
 type nilArgSite struct {
@@ -75,8 +95,49 @@ type nilArgSite struct {
 // nilArgSites: call sites that pass a value which may be the nil literal (directly, or as
 // one edge of a phi / the zero value of a `var x T` never assigned on some path) to a
 // parameter the callee dereferences unguarded.
+// optionalConfigPointer: v is loaded from a pointer-typed field of the configuration
+// closure that is not `required`: nil whenever the user leaves that section out.
+func (w *World) optionalConfigPointer(v ssa.Value) (string, bool) {
+	ld, ok := v.(*ssa.UnOp)
+	if !ok || ld.Op != token.MUL {
+		return "", false
+	}
+	fa, ok := ld.X.(*ssa.FieldAddr)
+	if !ok {
+		return "", false
+	}
+	fv := structFieldVar(fa.X.Type(), fa.Field)
+	if fv == nil {
+		return "", false
+	}
+	if _, isPtr := fv.Type().Underlying().(*types.Pointer); !isPtr {
+		return "", false
+	}
+	if w.cfgOptional == nil {
+		w.cfgOptional = map[*types.Var]string{}
+		if root := w.lookupType("definitions", "GleeceConfig"); root != nil {
+			for _, f := range configClosure(root) {
+				if _, isPtr := f.Var.Type().Underlying().(*types.Pointer); !isPtr {
+					continue
+				}
+				req := false
+				for _, ru := range strings.Split(f.Tag.Get("validate"), ",") {
+					if ru == "required" {
+						req = true
+					}
+				}
+				if !req {
+					w.cfgOptional[f.Var] = ownerName(f.Owner) + "." + f.Var.Name()
+				}
+			}
+		}
+	}
+	name, ok := w.cfgOptional[fv]
+	return name, ok
+}
+
 func (w *World) nilArgSites() []nilArgSite {
-	memo := map[*ssa.Function]map[int]bool{}
+	sums := w.derefSummaries()
 	var out []nilArgSite
 	// mayBeNilLiteral reports whether v may be nil at b and describes where its values come from
 	mayBeNilLiteral := func(v ssa.Value, b *ssa.BasicBlock) (bool, string) {
@@ -116,6 +177,13 @@ func (w *World) nilArgSites() []nilArgSite {
 				}
 			case *ssa.Call:
 				srcs = append(srcs, "call:"+calleeName(x))
+			case *ssa.UnOp:
+				if name, ok := w.optionalConfigPointer(x); ok {
+					may = true
+					srcs = append(srcs, "config-optional:"+name)
+				} else {
+					srcs = append(srcs, "load")
+				}
 			default:
 				srcs = append(srcs, fmt.Sprintf("%T", lv))
 			}
@@ -134,7 +202,10 @@ func (w *World) nilArgSites() []nilArgSite {
 				if callee == nil || callee.Pkg == nil || !isGleecePkg(callee.Pkg.Pkg.Path()) {
 					continue
 				}
-				sum := derefParamSummary(callee, memo, 0)
+				sum := sums[callee]
+				if sum == nil && callee.Origin() != nil {
+					sum = sums[callee.Origin()]
+				}
 				for ai, a := range call.Common().Args {
 					if !sum[ai] {
 						continue
@@ -154,4 +225,60 @@ func (w *World) nilArgSites() []nilArgSite {
 	}
 	sort.Slice(out, func(i, j int) bool { return out[i].Pos < out[j].Pos })
 	return out
+}
+
+// optionalConfigDerefSites: direct dereferences of an optional configuration pointer that
+// are not dominated by a nil test.
+func (w *World) optionalConfigDerefSites() []nilArgSite {
+	var out []nilArgSite
+	for _, fn := range w.SSAFuncs {
+		for _, b := range fn.Blocks {
+			for _, ins := range b.Instrs {
+				ld, ok := ins.(*ssa.UnOp)
+				if !ok {
+					continue
+				}
+				name, ok := w.optionalConfigPointer(ld)
+				if !ok {
+					continue
+				}
+				for _, use := range derefUses(ld, map[ssa.Value]bool{}, 0) {
+					if knownNonNil(use.val, use.ins.Block()) || knownNonNil(ld, use.ins.Block()) || nonNilByEquivLoad(ld, use.ins.Block()) {
+						continue
+					}
+					out = append(out, nilArgSite{Caller: fnShort(fn), Callee: name, Pos: use.ins.Pos(),
+						Key: fmt.Sprintf("%s derefs config-optional:%s", fnShort(fn), name)})
+				}
+			}
+		}
+	}
+	sort.Slice(out, func(i, j int) bool { return out[i].Pos < out[j].Pos })
+	return out
+}
+
+// nonNilByEquivLoad: a dominating branch established `x != nil` for another load of the
+// same field chain (go/ssa performs no CSE, `if c.F != nil { use(c.F.G) }` loads c.F twice).
+func nonNilByEquivLoad(v ssa.Value, b *ssa.BasicBlock) bool {
+	for _, f := range dominatingFacts(b) {
+		cnd, p := unwrapNot(f.Cond, f.Pol)
+		bo, ok := cnd.(*ssa.BinOp)
+		if !ok {
+			continue
+		}
+		var other ssa.Value
+		if isNilConst(bo.Y) {
+			other = bo.X
+		} else if isNilConst(bo.X) {
+			other = bo.Y
+		} else {
+			continue
+		}
+		if !((bo.Op == token.NEQ && p) || (bo.Op == token.EQL && !p)) {
+			continue
+		}
+		if equivLoad(other, v, 0) {
+			return true
+		}
+	}
+	return false
 }
